@@ -83,6 +83,15 @@ PROPS = {
         assumptions=_ASSUME_B + ["inputs change only inside the exclusive cleanup of EvictWithCleanup, for exactly the evicted keys (the documented usage)",
                                  "an eviction reaches Executor.dirty.Lock only when no Run is active (a goroutine blocked on a mutex is invisible to synctest); TryLock probes inside Execute and cleanup check that the lock is really held"],
     ),
+    "C34": dict(
+        test="TestC34", engine="B", level="fault_enumeration", components="incremental",
+        quick_checks=1500, thorough_checks=60000, thorough_timeout=7200,
+        rule="a case = random digraph on 2-6 queries (cycles and self-loops allowed; queries propagate a dependency's fatal error) x "
+             "set of 0-2 queries that panic once (faults then stop) x parallelism 1-4 x history (one client: Run(roots1) then "
+             "Run(roots2 + everything that panicked); or two concurrent clients with one Run each) x scheduler tape/disabled hooks; "
+             "distinct = distinct (graph, panics, history, trace hash); non-trivial = the graph has a cycle or a panic actually fired",
+        assumptions=_ASSUME_B + ["results computed around an earlier or concurrent panic are not judged for value (callers that propagate Resolve's cancellation error get memoised with it; only termination, panic reporting, non-caching of the panicking query, permits and leaks are judged there)"],
+    ),
 }
 
 _PURE = "pure function of its input (no schedule, clock, fault or interleaving can change the answer): not a deterministic-simulation target; see DESIGN.md section 4"
@@ -94,9 +103,19 @@ NOT_APPLICABLE = {
     "C39": _PURE, "C40": _PURE + " (histories over a single-threaded structure are just inputs; nothing to inject)", "C41": _PURE,
 }
 _P = "simulation applies (DESIGN.md section 3) but the check is still under construction in this round; not claimed until it runs"
-PENDING = {k: _P for k in ["C16", "C17", "C34", "C35", "C36", "C38"]}
+PENDING = {k: _P for k in ["C16", "C17", "C35", "C36", "C38"]}
 
 MANIFEST_TEXT = {
+    "C34": dict(
+        technique="deterministic simulation with fault injection: panicking queries and cyclic graphs x seeded schedules (engine B), bounded-step liveness, leak and permit accounting",
+        design_ref="DESIGN.md 3.9",
+        level_text="Seeded enumeration of (graph, panicking nodes, history) crossed with seeded interleavings of leader election, "
+                   "waiting, semaphore hand-off and cancellation; oracles: every Run returns within a decision budget (deadlock and "
+                   "livelock detected by the scheduler), cycle errors name a genuine closed dependency path and appear exactly on "
+                   "cyclic closures, a panic yields ErrPanic carrying the thrown value and query, the panicking query is re-executed "
+                   "by the next run, all permits are back after draining, no goroutine stays blocked.",
+        level_note="Trusted: harness scheduler, synctest quiescence and leak detection, graph model. Sampling only.",
+    ),
     "C33": dict(
         technique="deterministic simulation: seeded histories of concurrent Run/Evict clients x seeded schedules (engine B) against a pure recomputation model with execution counters",
         design_ref="DESIGN.md 3.8",
